@@ -777,3 +777,23 @@ Lemma copy_under_lock_same_schedule :
   map snd (sh_log (fst (run shared local (tstep DAY repaired) (init 1000 torn_progs) torn_sched)))
   = [OOk; OOk; OVal (VHash [(fa, SInt 0); (fb, SInt 0)]); OOk; OOk].
 Proof. vm_compute. reflexivity. Qed.
+
+(* ------------------------------------------------------------------------------------------ *)
+(* concurrent increments of one counter                                                        *)
+(* ------------------------------------------------------------------------------------------ *)
+
+(* caller 0: IncrBy(k,5) (creates the counter), IncrBy(k,1);  caller 1: IncrBy(k,1).
+   schedule 0 | 0 = caller 0 loads 5 | 1 = caller 1 loads 5 | 0 = stores 6 | 1 = stores 6: both return 6, one increment is lost *)
+Definition incr_progs : list (list op) := [[KIncrBy kA 5; KIncrBy kA 1]; [KIncrBy kA 1]].
+Definition incr_sched : list nat := [0; 0; 1; 0; 1]%nat.
+
+Lemma incr_under_read_lock_refuted :
+  ~ legal DAY 1000
+      (sh_log (fst (run shared local5 (tstep_incr_under_read_lock DAY repaired) (init5 1000 incr_progs) incr_sched))).
+Proof. unfold legal. vm_compute. intros H. discriminate H. Qed.
+
+(* the same programs with IncrBy as one critical section, under a schedule that interleaves the two callers *)
+Lemma incr_one_section_same_programs :
+  map snd (sh_log (fst (run shared local (tstep DAY repaired) (init 1000 incr_progs) [0; 1; 0]%nat)))
+  = [OInt 5; OInt 6; OInt 7].
+Proof. vm_compute. reflexivity. Qed.
